@@ -47,6 +47,7 @@ import itertools
 import json
 import os
 import re
+import sys
 import traceback
 import wsgiref.validate
 from urllib.parse import quote
@@ -148,6 +149,8 @@ def grid_outcomes(prot):
     # a listener on the documented `wsdl` event edits the document before it is sent
     out.append({"kind": "wsdl", "edit": "append"})
     out.append({"kind": "wsdl", "edit": "replace"})
+    # ... differently on every request, the judged request being the SECOND ?wsdl of the instance
+    out.append({"kind": "wsdl", "edit": "vary"})
     out.append({"kind": "wsdl-error"})      # ?wsdl with an injected failure of WSDL generation
     return out
 
@@ -235,7 +238,7 @@ def hyp_cases(tier):
                  "unknown-method", "wsdl", "wsdl-error"] + (["malformed"] if is_doc(prot) else [])
         k = draw(st.sampled_from(kinds))
         if k == "wsdl":
-            e = draw(st.sampled_from([None, "append", "replace"]))
+            e = draw(st.sampled_from([None, "append", "replace", "vary"]))
             return {"kind": k, "edit": e} if e else {"kind": k}
         if k == "ok-prim":
             return {"kind": k, "ret": draw(_TXTB)}
@@ -766,12 +769,32 @@ def run_case(case, rec):
             raise RuntimeError("injected failure of WSDL generation")
         wsgi_app.doc.wsdl11.build_interface_document = _boom
     if case["outcome"].get("edit"):
+        _n = [0]
+
         def _edit(ctx, how=case["outcome"]["edit"]):
+            _n[0] += 1
             if how == "append":
                 ctx.transport.wsdl = ctx.transport.wsdl + b"<!-- edited by a wsdl listener -->"
+            elif how == "vary":
+                ctx.transport.wsdl = ctx.transport.wsdl + b"<!-- request " + b"#" * (7 * _n[0]) + b" -->"
             else:
                 ctx.transport.wsdl = b"<definitions/>"
         wsgi_app.event_manager.add_listener("wsdl", _edit)
+        if case["outcome"]["edit"] == "vary":
+            # an earlier ?wsdl request on the same instance (its document has another length)
+            _it = wsgi_app({"REQUEST_METHOD": "GET", "SCRIPT_NAME": "", "PATH_INFO": "/",
+                            "QUERY_STRING": "wsdl", "SERVER_NAME": "localhost", "SERVER_PORT": "80",
+                            "SERVER_PROTOCOL": "HTTP/1.1", "wsgi.version": (1, 0),
+                            "wsgi.url_scheme": "http", "wsgi.input": CountingInput(b""),
+                            "wsgi.errors": sys.stderr, "wsgi.multithread": False,
+                            "wsgi.multiprocess": False, "wsgi.run_once": False},
+                           lambda s_, h_, e_=None: None)
+            try:
+                for _ in _it:
+                    pass
+            finally:
+                if hasattr(_it, "close"):
+                    _it.close()
     obs = Obs()
     app.event_manager.add_listener("method_context_closed",
                                    lambda ctx: obs.log.append("ctx-closed"))
